@@ -151,6 +151,21 @@ def run(ctx):
         attempt("from_string", (ValueError,), lambda: vr.VersionRange.from_string(s, simplify=fs, validate=fv), s, "malformed")
         c = r.choice(list(vr.RANGE_CLASS_BY_SCHEMES.values())).version_class
         attempt("constraint.from_string", (ValueError,), lambda: vc.VersionConstraint.from_string(s.split("/")[-1], c), s.split("/")[-1], "malformed")
+    # ranges whose constraints are near neighbours (same base, different suffix): parsing sorts them, so the
+    # comparison code of the scheme is reached with near-equal operands
+    for scheme, rcls in list(vr.RANGE_CLASS_BY_SCHEMES.items()):
+        try:
+            near = gens.near_pool(r, rcls.version_class, 9 if ctx.tier == "quick" else 30)
+        except Exception:
+            near = []
+        near = [v.string for v in near if "|" not in v.string]
+        for b, x in gens.mined_pairs(r, rcls.version_class, 80 if ctx.tier == "quick" else 400):
+            if "|" not in x:
+                s = f"vers:{scheme}/{b}|{x}"
+                attempt("from_string", (ValueError,), lambda: vr.VersionRange.from_string(s), s, "near")
+        for _ in range(0 if len(near) < 2 else (6 if ctx.tier == "quick" else 40)):
+            s = f"vers:{scheme}/" + "|".join(r.choice([">=", "<", "", "!=", "<=", ">"]) + x for x in r.sample(near, r.randint(2, min(4, len(near)))))
+            attempt("from_string", (ValueError,), lambda: vr.VersionRange.from_string(s), s, "near")
     for s in ["", " ", "vers:", "vers:npm", "vers:npm/", "vers:/1", "npm/1", "vers:npm/|", "vers:npm/*|*", "vers:npm/>=", "vers:npm/1|1"] + NONASCII:
         attempt("from_string", (ValueError,), lambda: vr.VersionRange.from_string(s), s, "edge")
     # ---- native converters
